@@ -9,7 +9,7 @@ use pdatastructs::countminsketch::CountMinSketch;
 use pdatastructs::hyperloglog::HyperLogLog;
 use serde_json::{json, Value};
 
-pub const RULE: &str = "pairs/triples of streams (overlapping, disjoint, empty, near capacity) per structure and configuration; after a.op(&b): a is compared observable-by-observable with a reference that received stream(A) then stream(B), b with its own pre-state; commutativity/associativity (Bloom, CMS, HLL, QF) and idempotence (Bloom, HLL, QF) on triples. Quotient filter: Ok iff the reference construction over the successfully inserted elements succeeds. Cuckoo: compared (sweep, len, per-key deletable counts) when union and reference construction both succeed. non-trivial = both operands non-empty; distinct = distinct (config, streams) hashes";
+pub const RULE: &str = "pairs/triples of streams (overlapping, disjoint, empty, near capacity) per structure and configuration; after a.op(&b): a is compared observable-by-observable with a reference that received stream(A) then stream(B), b with its own pre-state; commutativity/associativity (Bloom, CMS, HLL, QF) and idempotence (Bloom, HLL, QF) on triples. Quotient filter: Ok iff the reference construction over the successfully inserted elements succeeds. Cuckoo: compared (sweep, len, per-key deletable counts) when union and reference construction both succeed; in half of the cuckoo cases the operands are built with inserts followed by deletes (holes inside buckets) and the reference from the net content. Quotient filter remainders up to 58 bits. non-trivial = both operands non-empty; distinct = distinct (config, streams) hashes";
 pub const ASSUMPTIONS: &[&str] = &[
     "CMS workloads keep total weight below the counter maximum (overflow panics are documented behaviour)",
     "cuckoo slot layout may differ between merged and reference filter; only multiset observables are compared",
@@ -24,6 +24,9 @@ fn stream(r: &mut FastRng, universe: &[u64], max_len: usize) -> Vec<u64> {
     (0..n).map(|_| *r.pick(universe)).collect()
 }
 
+/// Build a filter from a stream. For filters with delete, every third successfully inserted
+/// element whose index is divisible by 3 is deleted again after the inserts (leaving holes inside
+/// buckets); the returned vector holds the net content.
 fn build<F: Flt>(make: &dyn Fn() -> F, s: &[u64]) -> (F, Vec<u64>, bool) {
     let mut f = make();
     let mut ok = vec![];
@@ -35,7 +38,30 @@ fn build<F: Flt>(make: &dyn Fn() -> F, s: &[u64]) -> (F, Vec<u64>, bool) {
             all_ok = false;
         }
     }
+    if f.has_delete() && WITH_HOLES.with(|h| h.get()) {
+        let mut kept = vec![];
+        for (j, k) in ok.iter().enumerate() {
+            if j % 3 == 0 && f.delete(*k) == Some(true) {
+                continue;
+            }
+            kept.push(*k);
+        }
+        ok = kept;
+    }
     (f, ok, all_ok)
+}
+
+/// inserts only (used for the sequential reference over the operands' net content)
+fn build_plain<F: Flt>(make: &dyn Fn() -> F, s: &[u64]) -> (F, Vec<u64>, bool) {
+    let holes = WITH_HOLES.with(|h| h.replace(false));
+    let r = build(make, s);
+    WITH_HOLES.with(|h| h.set(holes));
+    r
+}
+
+thread_local! {
+    /// cuckoo cases: delete part of the inserted elements again while building operands
+    static WITH_HOLES: std::cell::Cell<bool> = const { std::cell::Cell::new(false) };
 }
 
 fn case_hash(label: &str, streams: &[&[u64]]) -> u64 {
@@ -74,7 +100,7 @@ fn filter_case<F: Flt>(
         }
         // reference: successfully inserted elements of A then of B
         let ab: Vec<u64> = a_ok.iter().chain(b_ok.iter()).copied().collect();
-        let (rf, _, ref_all_ok) = build(make, &ab);
+        let (rf, _, ref_all_ok) = build_plain(make, &ab);
         if capacity_rule && res.is_ok() != ref_all_ok {
             return Some((
                 format!("C06/{}/ok-iff-fits/union-{}-reference-{}", kind, if res.is_ok() { "ok" } else { "err" }, if ref_all_ok { "fits" } else { "overflows" }),
@@ -176,7 +202,8 @@ fn bloom_item(r: &mut FastRng, rep: &mut Report) {
 
 fn qf_item(r: &mut FastRng, i: usize, rep: &mut Report) {
     let mut cfg = pick_qf(r, 6);
-    cfg.r = cfg.r.min(16);
+    // mostly narrow remainders, but also 33..58 bits (copies narrowed to 32 bits must show)
+    cfg.r = if i % 5 == 4 { *r.pick(&[33usize, 40, 48, 58]) } else { cfg.r.min(16) };
     cfg.bh = match i % 3 {
         0 | 1 => CtlBuildHasher::identity(),
         _ => pick_hasher(r),
@@ -202,7 +229,7 @@ fn qf_item(r: &mut FastRng, i: usize, rep: &mut Report) {
     }
     // a full table as `other`
     if cfg.bh.mode == HMode::Identity && cap <= 64 {
-        let full: Vec<u64> = (0..cap as u64).map(|q| cfg.key(q % (1 << cfg.q), r.below(1u64 << cfg.r.min(20)))).collect();
+        let full: Vec<u64> = (0..cap as u64).map(|q| cfg.key(q % (1 << cfg.q), (r.next() & ((1u64 << cfg.r.min(63)) - 1)))).collect();
         let a = stream(r, &full, cap);
         rep.evaluations += 1;
         let cf = cfg.clone();
@@ -236,12 +263,14 @@ fn cuckoo_item(r: &mut FastRng, i: usize, rep: &mut Report) {
             _ => None,
         };
         pdatastructs::verif::set_kick_budget(kb);
+        WITH_HOLES.with(|h| h.set(r.chance(0.5)));
         let ml = (cap * 2 / 3).max(2);
         let (a, b) = (stream(r, &u, ml), stream(r, &u, ml));
         rep.evaluations += 1;
         let cf = cfg.clone();
         filter_case("cuckoo", &label, json!({"cfg": cfg, "kick_budget": kb}), &|| cf.make(), &u, &a, &b, &[], false, false, false, rep);
         pdatastructs::verif::set_kick_budget(None);
+        WITH_HOLES.with(|h| h.set(false));
     }
 }
 
